@@ -1,5 +1,6 @@
 #!/bin/bash
 # usage: save_seed.sh <seed-id> <worktree> <n> <property> "<needs>" "<ran>"
+[ -e /verif/seeded/$1 ] && { echo "seed id $1 already exists - choose another"; exit 9; }
 mkdir -p /verif/seeded/$1 && cp $2/_mut/$3/patch.diff /verif/seeded/$1/patch.diff && cp $2/_mut/$3/demo.py /verif/seeded/$1/demo.py && cp $2/_mut/$3/notes.md /verif/seeded/$1/notes.md
 python3 - "$1" "$4" "$5" "$6" <<'PY'
 import json,sys
